@@ -24,9 +24,148 @@ def loop_body_events(fn, loop, extra_params=()):
 # ---------------------------------------------------------------------------
 # C17
 # ---------------------------------------------------------------------------
+def _hash_order(chk, program):
+    # HASH-ORDER in the decoder: add_data precedes apply_preferred_units; neither writes raw_value / id
+    dfn = program.fn('decoder', 'NMEA2000Decoder._call_decode_function')
+    order = [n.func.attr for n in ast.walk(dfn) if isinstance(n, ast.Call) and isinstance(n.func, ast.Attribute) and n.func.attr in ('add_data', 'apply_preferred_units')]
+    lines = {n.func.attr: n.lineno for n in ast.walk(dfn) if isinstance(n, ast.Call) and isinstance(n.func, ast.Attribute) and n.func.attr in ('add_data', 'apply_preferred_units')}
+    chk.check(sorted(order) == ['add_data', 'apply_preferred_units'] and lines['add_data'] < lines['apply_preferred_units'], 'HASH-ORDER', 'hash-before-unit-conversion', file='nmea2000/decoder.py',
+              line=lines.get('add_data', dfn.lineno), func='_call_decode_function', expected='add_data (hash) is called before apply_preferred_units', found=order)
+    args = [n for n in ast.walk(dfn) if isinstance(n, ast.Call) and isinstance(n.func, ast.Attribute) and n.func.attr == 'add_data']
+    if args:
+        adp = [a_.arg for a_ in program.fn('message', 'NMEA2000Message.add_data').args.args][1:]
+        flagp = next((p_ for p_ in adp if 'network' in p_ or 'map' in p_), None)
+        a = list(args[0].args)
+        kw = {k.arg: k.value for k in args[0].keywords}
+        fl = kw.get(flagp) if flagp in kw else (a[adp.index(flagp)] if flagp in adp and adp.index(flagp) < len(a) else None)
+        chk.check(fl is not None and ast.unparse(fl) == 'self.build_network_map', 'HASH-DEPS', 'flag-is-build_network_map', file='nmea2000/decoder.py', line=args[0].lineno, func='_call_decode_function',
+                  expected='the mapping flag handed to add_data is the decoder option', found=ast.unparse(fl) if fl is not None else None)
+    for q in ('NMEA2000Message.add_data', 'NMEA2000Message.apply_preferred_units'):
+        f2 = program.fn('message', q)
+        bad = [n for n in ast.walk(f2) if isinstance(n, ast.Attribute) and isinstance(n.ctx, ast.Store) and n.attr in ('raw_value', 'id', 'part_of_primary_key')]
+        chk.check(not bad, 'HASH-ORDER', f"{q}::does-not-touch-hash-inputs", file=MSG, line=f2.lineno, func=q, expected='raw_value / id / part_of_primary_key never written', found=[b.attr for b in bad])
+
+
+def hash_semantic(chk, program):
+    """NMEA2000Message.add_data interpreted (absint) on a message with id 'theId' and four fields -- key, non-key, key, flag None -- whose raw values
+    are symbols, and symbolic source / destination / priority.  -> True when decided (obligations emitted), False when not interpretable.
+    With the mapping flag off the hash must stay None; with it on, the digest must be a hashlib digest of exactly: the id, then, for the key
+    fields in field order, a constant non-numeric separator and the raw value -- no other symbol may reach it."""
+    from . import absint as A
+    fn = program.fn('message', 'NMEA2000Message.add_data')
+    cls = program.cls('message', 'NMEA2000Message')
+    methods = {n.name: n for n in cls.body if isinstance(n, ast.FunctionDef)}
+    funcs = {q: f for q, f in program.mod('message').defs.items() if '.' not in q}
+    params = [a.arg for a in fn.args.args]
+    ALGOS = ('md5', 'sha1', 'sha224', 'sha256', 'sha384', 'sha512', 'blake2b', 'blake2s', 'sha3_256', 'sha3_512')
+    def _pieces(a):
+        if isinstance(a, A.AStr):
+            return list(a.pieces)
+        if isinstance(a, A.ABytes) and all(x[0] == 'c' and x[1] < 128 for x in a.items):
+            return [('lit', bytes(x[1] for x in a.items).decode('ascii'))]
+        return [('opaque', repr(a))]
+    def run(flag):
+        used_builtin_hash = []
+        def hook(it, call, env):
+            f = call.func
+            if isinstance(f, ast.Name) and f.id == 'hash':
+                used_builtin_hash.append(call.lineno)
+                return A.AOpaque('builtin hash')
+            if isinstance(f, ast.Attribute) and isinstance(f.value, ast.Name) and f.value.id == 'hashlib':
+                args = [it.expr(a, env) for a in call.args]
+                h = A.AObj(hasher=f.attr, data=[])
+                for a in args:
+                    h.attrs['data'].extend(_pieces(a))
+                return h
+            if isinstance(f, ast.Attribute) and f.attr in ('update', 'hexdigest', 'digest', 'copy'):
+                o = it.expr(f.value, env)
+                if isinstance(o, A.AObj) and 'hasher' in o.attrs:
+                    if f.attr == 'update':
+                        for a in [it.expr(a, env) for a in call.args]:
+                            o.attrs['data'].extend(_pieces(a))
+                        return None
+                    if f.attr == 'copy':
+                        return A.AObj(hasher=o.attrs['hasher'], data=list(o.attrs['data']))
+                    return A.AObj(digest=f.attr, algo=o.attrs['hasher'], of=list(o.attrs['data']))
+            return NotImplemented
+        def fld(i, pk):
+            return A.AObj(id=A.AStr([('lit', f"f{i}")]), raw_value=A.sym_int(f"raw{i}", 32), value=A.sym_int(f"val{i}", 32), part_of_primary_key=pk,
+                          name=A.AStr([('lit', f"F{i}")]), unit_of_measurement=None, physical_quantities=None, type=A.AOpaque('type'), description=None)
+        absent_key = fld(5, True)
+        absent_key.attrs['raw_value'] = None
+        absent_key.attrs['value'] = None
+        msg = A.AObj(id=A.AStr([('lit', 'theId')]), PGN=A.AInt(130000), fields=A.AList([fld(1, True), fld(2, False), fld(3, True), fld(4, None), absent_key]), hash=A.AOpaque('unset'),
+                     description=A.AStr([('lit', 'descr')]), ttl=None)
+        binding = {'src': A.sym_int('src', 8), 'dest': A.sym_int('dest', 8), 'priority': A.sym_int('prio', 3), 'timestamp': A.AOpaque('ts'),
+                   'source_iso_name': A.AObj(name=A.sym_int('NAME', 64)), 'raw_can_data': A.AOpaque('raw')}
+        args = [msg]
+        for p_ in params[1:]:
+            if 'network' in p_ or 'map' in p_:
+                args.append(flag)
+            elif p_ in binding:
+                args.append(binding[p_])
+            else:
+                args.append(A.AOpaque(p_))
+        from .wire import is_logger
+        it = A.Interp(hook=hook, skip=is_logger, methods=methods, functions=funcs)
+        it.call_function(fn, args)
+        return msg.attrs.get('hash'), used_builtin_hash
+    try:
+        off, hb0 = run(False)
+        on, hb1 = run(True)
+    except (A.Unknown, A.RaiseSignal) as u:
+        chk.unit('add_data_not_interpretable', str(u))
+        return False
+    chk.check(off is None, 'HASH-DEPS', 'hash-only-when-mapping', file=MSG, line=fn.lineno, func='add_data', expected='hash is None when network mapping is off', found=repr(off) if off is not None else 'None')
+    chk.check(not hb0 and not hb1, 'HASH-DEPS', 'no-builtin-hash', file=MSG, line=(hb0 + hb1 + [fn.lineno])[0], func='add_data', expected='builtin hash() not used (salted per process)', found=len(hb0 + hb1), nontrivial=False)
+    okd = isinstance(on, A.AObj) and on.attrs.get('algo') in ALGOS and on.attrs.get('digest') in ('hexdigest', 'digest')
+    chk.check(okd, 'HASH-DEPS', 'process-independent-digest', file=MSG, line=fn.lineno, func='add_data', expected='with mapping on: a hashlib digest (never the per-process builtin hash())',
+              found=f"hashlib.{on.attrs.get('algo')}(..).{on.attrs.get('digest')}()" if isinstance(on, A.AObj) and 'algo' in on.attrs else repr(on))
+    if not okd:
+        return True
+    # merge adjacent literals
+    pieces = []
+    for p_ in on.attrs['of']:
+        if p_[0] == 'lit' and pieces and pieces[-1][0] == 'lit':
+            pieces[-1] = ('lit', pieces[-1][1] + p_[1])
+        elif not (p_[0] == 'lit' and p_[1] == ''):
+            pieces.append(p_)
+    def is_raw(p_, i):
+        return p_[0] == 'decint' and isinstance(p_[1], A.AInt) and p_[1].vec() is not None and A.B.trim(p_[1].vec()) == [(f"raw{i}", k) for k in range(32)]
+    shape_ok = len(pieces) == 5 and pieces[0][0] == 'lit' and pieces[0][1].startswith('theId') and is_raw(pieces[1], 1) and pieces[2][0] == 'lit' and is_raw(pieces[3], 3) and pieces[4][0] == 'lit'
+    sep_ok = False
+    if shape_ok:
+        s1, s2, s3 = pieces[0][1][len('theId'):], pieces[2][1], pieces[4][1]
+        sep_ok = s1 == s2 and s1 != '' and not any(ch.isdigit() or ch in '-+.e' for ch in s1) and s3 == s1 + 'None'
+    def descr():
+        out = []
+        for p_ in pieces:
+            if p_[0] == 'lit': out.append(repr(p_[1]))
+            elif p_[0] == 'decint': out.append('str(' + A.B.show_vec(A.B.trim(p_[1].vec() or [])) + ')')
+            else: out.append(str(p_[0]))
+        return ' + '.join(out)
+    chk.check(shape_ok and sep_ok, 'HASH-DEPS', 'key-is-id-and-pk-raw-values', file=MSG, line=fn.lineno, func='add_data',
+              expected="digest of: id, then for each field with part_of_primary_key, in field order, a non-numeric separator and str(raw_value); nothing else (message 'theId', fields raw1 key, raw2 not key, raw3 key, raw4 flag None, an absent key field whose raw value is None)",
+              found=descr(), detail='' if shape_ok and sep_ok else 'a non-key field, the source, an ambiguous concatenation or a missing key field changes which messages share a hash')
+    return True
+
 def hash_rules(chk, program):
     fn = program.fn('message', 'NMEA2000Message.add_data')
     params = [a.arg for a in fn.args.args]
+    if hash_semantic(chk, program):
+        _hash_order(chk, program)
+        return
+    # not interpretable: the structural reading below may confirm; what it does not recognise is a refusal, not an alarm
+    from .rules_reasm import _ConfirmOnly
+    real, chk = chk, _ConfirmOnly(chk, {'HASH-DEPS'})
+    try:
+        _hash_structural(chk, program, fn, params)
+    finally:
+        if chk.unrecognised:
+            real.unknown('HASH-DEPS', 'add_data', f"neither interpretable nor of the recognised shape: {chk.unrecognised[:3]}", MSG, fn.lineno)
+    _hash_order(real, program)
+
+def _hash_structural(chk, program, fn, params):
     # hash = None unconditionally first; under build_network_map: hash = hashlib.<f>(key.encode()).hexdigest()
     top = [s for s in fn.body]
     ifs = [s for s in top if isinstance(s, ast.If)]
@@ -101,21 +240,7 @@ def hash_rules(chk, program):
     idx_loop = ifnode.body.index(loops[0]) if loops else -1
     between = [s for s in ifnode.body[idx_loop + 1:] if s is not hs and any(isinstance(n, ast.Name) and n.id == keyname and isinstance(n.ctx, ast.Store) for n in ast.walk(s))]
     chk.check(not between, 'HASH-DEPS', 'key-not-modified-after-loop', file=MSG, line=hs.lineno, func='add_data', expected='digest of exactly the key built above', found=[ast.unparse(s)[:60] for s in between], nontrivial=False)
-    # HASH-ORDER in the decoder: add_data precedes apply_preferred_units; neither writes raw_value / id
-    dfn = program.fn('decoder', 'NMEA2000Decoder._call_decode_function')
-    order = [n.func.attr for n in ast.walk(dfn) if isinstance(n, ast.Call) and isinstance(n.func, ast.Attribute) and n.func.attr in ('add_data', 'apply_preferred_units')]
-    lines = {n.func.attr: n.lineno for n in ast.walk(dfn) if isinstance(n, ast.Call) and isinstance(n.func, ast.Attribute) and n.func.attr in ('add_data', 'apply_preferred_units')}
-    chk.check(sorted(order) == ['add_data', 'apply_preferred_units'] and lines['add_data'] < lines['apply_preferred_units'], 'HASH-ORDER', 'hash-before-unit-conversion', file='nmea2000/decoder.py',
-              line=lines.get('add_data', dfn.lineno), func='_call_decode_function', expected='add_data (hash) is called before apply_preferred_units', found=order)
-    args = [n for n in ast.walk(dfn) if isinstance(n, ast.Call) and isinstance(n.func, ast.Attribute) and n.func.attr == 'add_data']
-    if args:
-        a = args[0].args
-        chk.check(len(a) >= 6 and ast.unparse(a[5]) == 'self.build_network_map', 'HASH-DEPS', 'flag-is-build_network_map', file='nmea2000/decoder.py', line=args[0].lineno, func='_call_decode_function',
-                  expected='the mapping flag handed to add_data is the decoder option', found=ast.unparse(a[5]) if len(a) >= 6 else None)
-    for q in ('NMEA2000Message.add_data', 'NMEA2000Message.apply_preferred_units'):
-        f2 = program.fn('message', q)
-        bad = [n for n in ast.walk(f2) if isinstance(n, ast.Attribute) and isinstance(n.ctx, ast.Store) and n.attr in ('raw_value', 'id', 'part_of_primary_key')]
-        chk.check(not bad, 'HASH-ORDER', f"{q}::does-not-touch-hash-inputs", file=MSG, line=f2.lineno, func=q, expected='raw_value / id / part_of_primary_key never written', found=[b.attr for b in bad])
+    _hash_order(chk, program)
 
 def _sum_leaves(t):
     if t[0] == 'binop' and t[1] == '+':
